@@ -165,10 +165,14 @@ class LiteralProvider(LoaderProvider, DumperProvider):
         self,
         basic_loader: Loader,
         enum_loaders: Sequence[Loader[Enum]],
-        allowed_values: Collection,
+        enum_cases: Sequence[Enum],
     ) -> Loader:
         if not enum_loaders:
             return basic_loader
+
+        # members of mixed-in enums are equal to plain values (and to members of other classes), only identity is reliable
+        def is_listed(enum_value):
+            return any(enum_value is case for case in enum_cases)
 
         if len(enum_loaders) == 1:
             enum_loader = enum_loaders[0]
@@ -179,7 +183,7 @@ class LiteralProvider(LoaderProvider, DumperProvider):
                 except LoadError:
                     pass
                 else:
-                    if enum_value in allowed_values:
+                    if is_listed(enum_value):
                         return enum_value
                 return basic_loader(data)
 
@@ -192,7 +196,7 @@ class LiteralProvider(LoaderProvider, DumperProvider):
                 except LoadError:
                     pass
                 else:
-                    if enum_value in allowed_values:
+                    if is_listed(enum_value):
                         return enum_value
             return basic_loader(data)
 
@@ -262,6 +266,7 @@ class LiteralProvider(LoaderProvider, DumperProvider):
         bytes_cases: Sequence[bytes],
         bytes_loader: Loader[bytes],
     ) -> Loader:
+        enum_cases = tuple(arg for arg in cases if isinstance(arg, Enum))
         if strict_coercion and any(isinstance(arg, bool) or _is_exact_zero_or_one(arg) for arg in cases):
             allowed_values_with_types = self._get_allowed_values_collection(
                 [(type(el), el) for el in cases],
@@ -279,7 +284,7 @@ class LiteralProvider(LoaderProvider, DumperProvider):
             return self._get_literal_loader_with_enum(
                 literal_loader_sc,
                 enum_loaders,
-                allowed_values_with_types,
+                enum_cases,
             )
 
         allowed_values = self._get_allowed_values_collection(cases)
@@ -296,11 +301,11 @@ class LiteralProvider(LoaderProvider, DumperProvider):
             return self._get_literal_loader_with_bytes(literal_loader, allowed_values, bytes_loader)
 
         if not bytes_cases:
-            return self._get_literal_loader_with_enum(literal_loader, enum_loaders, allowed_values)
+            return self._get_literal_loader_with_enum(literal_loader, enum_loaders, enum_cases)
 
         return self._get_literal_loader_many(
             self._get_literal_loader_with_bytes(literal_loader, allowed_values, bytes_loader),
-            self._get_literal_loader_with_enum(literal_loader, enum_loaders, allowed_values),
+            self._get_literal_loader_with_enum(literal_loader, enum_loaders, enum_cases),
             basic_loader=literal_loader,
         )
 
